@@ -21,7 +21,10 @@ fn main() {
                 let r = refs::tuple(a[2], a[1], a[3], a[0]);
                 vec![r.0, r.1, r.2, r.3, r.4, r.5]
             }
-            "spec_oti_valid" => vec![refs::oti_valid(a[0], a[1], a[2], a[4]) as u128],
+            "spec_oti_valid" => {
+                let (v, w) = (refs::oti_valid(a[0], a[1], a[2], a[4]), refs::oti_valid_mul(a[0], a[1], a[2], a[4]));
+                vec![if v == w { v as u128 } else { 2 }]
+            }
             "spec_pid_wire" => refs::payload_id_wire(a[0], a[1]).iter().map(|&b| b as u128).collect(),
             "spec_oti_wire" => refs::oti_wire(a[0], a[1], a[2], a[3], a[4]).iter().map(|&b| b as u128).collect(),
             "spec_be" => refs::be(a[0] as usize, a[1]).iter().map(|&b| b as u128).collect(),
